@@ -291,10 +291,13 @@ const (
 	kOther  // Echo-Reply, Discard-Request or an unknown code
 	kLate   // restart timer expires but its callback runs only after Inner was handled
 	kAssign // IPCP SetPeerIP
+	// events that make the automaton ORIGINATE a packet with an identifier of its own (appended: the numbers are part of the replay files)
+	kSendEcho // LCP SendEchoRequest() — what the keep-alive does
+	kSendPJ   // LCP SendProtocolReject(Proto, Data) — what the session layer does with a packet of an unsupported protocol
 	nKinds
 )
 
-var kindName = [...]string{"Up", "Down", "Open", "Close", "TO", "Half", "RCR", "RCA", "RCN", "RCJ", "RTR", "RTA", "CodeRej", "ProtoRej", "Echo", "Other", "LateTO", "Assign"}
+var kindName = [...]string{"Up", "Down", "Open", "Close", "TO", "Half", "RCR", "RCA", "RCN", "RCJ", "RTR", "RTA", "CodeRej", "ProtoRej", "Echo", "Other", "LateTO", "Assign", "SendEcho", "SendProtoRej"}
 
 func (k kind) String() string { return kindName[k] }
 
@@ -320,7 +323,20 @@ const (
 	idMatch = iota // identifier of our latest Configure-Request
 	idStale        // identifier of an earlier request (latest - 1 - ID%3)
 	idRaw          // ID as drawn
+	idOther        // identifier of some OTHER packet we sent in this history: the (ID%4)-th most recent packet that is not a
+	//                Configure-Request (Terminate-Request, Code-Reject, Protocol-Reject, Echo-Request, and our replies);
+	//                fallback: idStale
 )
+
+// IDFrom: where the identifier of an incoming Terminate-Ack / Code-Reject / Echo-Reply comes from (0 keeps the
+// meaning these events always had: ID as drawn).
+const (
+	fromRaw     = iota
+	fromRequest // Terminate-Ack: our latest Terminate-Request; otherwise our latest Configure-Request
+	fromOther   // as idOther (for a Terminate-Ack: any packet that is not a Terminate-Request)
+)
+
+var idModeName = [...]string{"match", "stale", "raw", "other"}
 
 const (
 	tailNone     = iota
@@ -340,6 +356,8 @@ type event struct {
 	K        kind      `json:"k"`
 	ID       byte      `json:"id,omitempty"`
 	IDMode   int       `json:"idmode,omitempty"`
+	IDFrom   int       `json:"idfrom,omitempty"` // RTA, Code-Reject, Echo-Reply (kOther code 10)
+	Proto    uint16    `json:"proto,omitempty"`  // kSendPJ
 	Opts     []optSpec `json:"opts,omitempty"`
 	EchoOurs bool      `json:"echo_ours,omitempty"` // RCA: repeat the options of our latest request
 	Tail     int       `json:"tail,omitempty"`
@@ -367,7 +385,7 @@ func (e event) String() string {
 		}
 		b.WriteString(")")
 	case kRCA, kRCN, kRCJ:
-		fmt.Fprintf(&b, "(%s", [...]string{"match", "stale", "raw"}[e.IDMode])
+		fmt.Fprintf(&b, "(%s", idModeName[e.IDMode])
 		if e.IDMode != idMatch {
 			fmt.Fprintf(&b, ":%d", e.ID)
 		}
@@ -379,15 +397,27 @@ func (e event) String() string {
 		}
 		b.WriteString(")")
 	case kRTR, kRTA, kEcho, kXJ, kPJ:
-		fmt.Fprintf(&b, "(id=%d data=%x)", e.ID, e.Data)
+		fmt.Fprintf(&b, "(id=%s data=%x)", e.idText(), e.Data)
 	case kOther:
-		fmt.Fprintf(&b, "(code=%d id=%d data=%x)", e.Code, e.ID, e.Data)
+		fmt.Fprintf(&b, "(code=%d id=%s data=%x)", e.Code, e.idText(), e.Data)
+	case kSendPJ:
+		fmt.Fprintf(&b, "(proto=%04x data=%x)", e.Proto, e.Data)
 	case kLate:
 		fmt.Fprintf(&b, "[%s]", *e.Inner)
 	case kAssign:
 		fmt.Fprintf(&b, "(%v)", net.IP(e.IP[:]))
 	}
 	return b.String()
+}
+
+func (e event) idText() string {
+	switch e.IDFrom {
+	case fromRequest:
+		return "<our-request>"
+	case fromOther:
+		return fmt.Sprintf("<other-packet:%d>", e.ID%4)
+	}
+	return fmt.Sprint(e.ID)
 }
 
 func (o optSpec) String() string {
@@ -458,6 +488,8 @@ func (r *result) class(c string) { r.Classes[c] = true }
 
 // ---------------------------------------------------------------- monitor + executor
 
+type sentID struct{ code, id byte }
+
 type runner struct {
 	c    config
 	a    fsm
@@ -476,6 +508,9 @@ type runner struct {
 	havePeerReq bool   // the peer sent a Configure-Request (that counts, see onRCR)
 	ackedPeer   bool   // our reply to the peer's latest Configure-Request was an Ack
 	static      net.IP // assigned without a pool (config or SetPeerIP)
+	sent        []sentID // code and identifier of EVERY packet we sent, oldest first
+	haveTR      bool
+	trID        byte // identifier of our latest Terminate-Request
 
 	// retransmission accounting over the current silent stretch (no event but time)
 	silentCR, silentTR int
@@ -594,16 +629,95 @@ func (r *runner) optBytes(e event) []byte {
 	return data
 }
 
+func (r *runner) staleID(e event) byte {
+	back := 1 + int(e.ID%3)
+	if n := len(r.reqIDs); n > back {
+		return r.reqIDs[n-1-back]
+	}
+	return r.reqID - byte(back)
+}
+
+// otherID: the identifier of the (ID%4)-th most recent packet we sent whose code is not `not` (distinct identifiers).
+func (r *runner) otherID(e event, not byte) (byte, byte, bool) {
+	want := int(e.ID % 4)
+	seen := map[byte]bool{}
+	var last *sentID
+	for i := len(r.sent) - 1; i >= 0; i-- {
+		p := r.sent[i]
+		if p.code == not || seen[p.id] {
+			continue
+		}
+		seen[p.id] = true
+		last = &r.sent[i]
+		if want == 0 {
+			return p.id, p.code, true
+		}
+		want--
+	}
+	if last != nil {
+		return last.id, last.code, true // fewer than ID%4+1 candidates: the oldest one
+	}
+	return 0, 0, false
+}
+
 func (r *runner) ident(e event) byte {
 	switch e.IDMode {
 	case idMatch:
 		return r.reqID
 	case idStale:
-		back := 1 + int(e.ID%3)
-		if n := len(r.reqIDs); n > back {
-			return r.reqIDs[n-1-back]
+		return r.staleID(e)
+	case idOther:
+		if id, code, ok := r.otherID(e, cCR); ok {
+			r.noteCross(e, id, code)
+			return id
 		}
-		return r.reqID - byte(back)
+		return r.staleID(e)
+	}
+	return e.ID
+}
+
+// noteCross labels what an identifier borrowed from another packet of ours meets.
+func (r *runner) noteCross(e event, id, code byte) {
+	r.res.class("id-src:other-packet")
+	if id == r.reqID && r.haveReq {
+		return // the borrowed identifier happens to be the one of our latest request
+	}
+	switch code {
+	case cTR, cXJ, cPJ, cEchQ:
+		r.res.class("xid:" + e.K.String() + "=id-of-our-" + codeName[code])
+		switch e.K {
+		case kRCA, kRCN, kRCJ:
+			r.res.class("xid:configure-reply-with-id-of-our-non-request-packet")
+			switch r.a.State() {
+			case "Req-Sent", "Ack-Sent":
+				r.res.class("xid:configure-reply-with-foreign-code-id-while-awaiting-reply")
+				if e.K == kRCA {
+					r.res.class("xid:ack-with-foreign-code-id-while-awaiting-ack")
+				}
+			}
+		}
+	}
+}
+
+// identFrom resolves the identifier of an incoming Terminate-Ack / Code-Reject / Echo-Reply.
+func (r *runner) identFrom(e event) byte {
+	switch e.IDFrom {
+	case fromRequest:
+		if e.K == kRTA && r.haveTR {
+			return r.trID
+		}
+		if r.haveReq {
+			return r.reqID
+		}
+	case fromOther:
+		not := byte(cCR)
+		if e.K == kRTA {
+			not = cTR
+		}
+		if id, code, ok := r.otherID(e, not); ok {
+			r.noteCross(e, id, code)
+			return id
+		}
 	}
 	return e.ID
 }
@@ -634,15 +748,22 @@ func (r *runner) wire(e event) []byte {
 	case kRTR:
 		return packet(cTR, e.ID, e.Data)
 	case kRTA:
-		return packet(cTA, e.ID, e.Data)
+		return packet(cTA, r.identFrom(e), e.Data)
 	case kXJ:
-		return packet(cXJ, e.ID, e.Data)
+		// a Code-Reject carries a copy of the rejected packet (code, identifier, ...): name one of ours
+		id := r.identFrom(e)
+		d := e.Data
+		if e.IDFrom != fromRaw && len(d) >= 2 {
+			d = append([]byte(nil), d...)
+			d[1] = id
+		}
+		return packet(cXJ, id, d)
 	case kPJ:
 		return packet(cPJ, e.ID, e.Data)
 	case kEcho:
 		return packet(cEchQ, e.ID, e.Data)
 	case kOther:
-		return packet(e.Code, e.ID, e.Data)
+		return packet(e.Code, r.identFrom(e), e.Data)
 	}
 	return nil
 }
@@ -667,6 +788,14 @@ func (r *runner) observe(ev event, wire []byte, timer bool) (replies []sentPkt) 
 	pk := r.rec.since(r.seen)
 	r.seen += len(pk)
 	for _, p := range pk {
+		r.sent = append(r.sent, sentID{p.code, p.id})
+		switch p.code {
+		case cXJ, cPJ, cEchQ:
+			r.res.class("orig:" + codeName[p.code])
+			if !stable(r.a.State()) {
+				r.res.class("orig:" + codeName[p.code] + "/while-negotiating-or-terminating")
+			}
+		}
 		switch p.code {
 		case cCR:
 			r.haveReq, r.reqID, r.reqOpts, r.peerAcked = true, p.id, p.data, false
@@ -678,6 +807,8 @@ func (r *runner) observe(ev event, wire []byte, timer bool) (replies []sentPkt) 
 			r.silentCR++
 			r.lastArm = time.Now()
 		case cTR:
+			r.haveTR, r.trID = true, p.id
+			r.res.class("orig:Terminate-Request")
 			r.silentTR++
 			r.lastArm = time.Now()
 		case cCA, cCN, cCJ:
@@ -928,6 +1059,16 @@ func (r *runner) step(e event) {
 		ip := net.IP(append([]byte(nil), x.IP[:]...)) // x.IP is set for every kAssign
 		r.call("SetPeerIP", func() { r.a.(ipcpA).SetPeerIP(ip) })
 		r.static = ip
+	case kSendEcho:
+		// only LCP originates Echo-Requests (keepalive.go); the event is a no-op for the NCP automata
+		if l, ok := r.a.(lcpA); ok {
+			r.call("SendEchoRequest", func() { l.SendEchoRequest() })
+		}
+	case kSendPJ:
+		if l, ok := r.a.(lcpA); ok {
+			d := append([]byte(nil), x.Data...)
+			r.call("SendProtocolReject", func() { l.SendProtocolReject(x.Proto, d) })
+		}
 	default:
 		wire = r.wire(x)
 		if x.K == kRCA && r.haveReq && wire[1] == r.reqID {
@@ -935,6 +1076,20 @@ func (r *runner) step(e event) {
 			r.res.class("rca:matching")
 		} else if x.K == kRCA {
 			r.res.class("rca:stale")
+		}
+		switch x.K {
+		case kRCA, kRCN, kRCJ:
+			switch x.IDMode {
+			case idMatch:
+				r.res.class("id-src:latest-request")
+			case idRaw:
+				r.res.class("id-src:fresh")
+			}
+		case kRTA, kXJ, kOther:
+			switch x.IDFrom {
+			case fromRequest:
+				r.res.class("id-src:latest-request")
+			}
 		}
 		what := x.K.String()
 		if x.K == kEcho && len(x.Data) < 4 {
@@ -1019,8 +1174,19 @@ func (r *runner) fingerprint(timerPending bool) string {
 	if timerPending && !r.lastArm.IsZero() {
 		phase = time.Since(r.lastArm) % r.c.RT
 	}
-	return fmt.Sprintf("%s|rc=%d|t=%v+%s|req=%v,%v|peer=%v,%v|sil=%d,%d,%s|addr=%v,%v", r.a.State(), r.a.RestartCount(), timerPending, phase,
-		r.haveReq, r.peerAcked, r.havePeerReq, r.ackedPeer, r.silentCR, r.silentTR, r.stretch, as, rel)
+	// which of our packets carries the most recently consumed identifier of our own counter: the latest Configure-Request
+	// ("") or a later packet of another code (an Ack for THAT identifier must not count as an Ack of the request)
+	lastOrig := ""
+	for i := len(r.sent) - 1; i >= 0; i-- {
+		if c := r.sent[i].code; c == cCR || c == cTR || c == cXJ || c == cPJ || c == cEchQ {
+			if c != cCR {
+				lastOrig = codeName[c]
+			}
+			break
+		}
+	}
+	return fmt.Sprintf("%s|rc=%d|t=%v+%s|req=%v,%v|peer=%v,%v|sil=%d,%d,%s|addr=%v,%v|lastorig=%s", r.a.State(), r.a.RestartCount(), timerPending, phase,
+		r.haveReq, r.peerAcked, r.havePeerReq, r.ackedPeer, r.silentCR, r.silentTR, r.stretch, as, rel, lastOrig)
 }
 
 type runOpts struct {
